@@ -147,6 +147,32 @@ def states_from_init_dump(ctx, big):
     return blocks
 
 
+def simulated_behaviours(ctx, big, num):
+    """-> [(table, config, order)] from `tlc -simulate` behaviours of MC_Pipeline"""
+    import glob
+    wd = tlc.workdir("sim_" + ctx.prop)
+    cfgp = os.path.join(wd, "sim.cfg")
+    with open(cfgp, "w") as f:
+        f.write("INIT MCPInit\nNEXT MCPNext\nCONSTANTS\n  Big = %s\nCHECK_DEADLOCK FALSE\n" % ("TRUE" if big else "FALSE"))
+    res = tlc.run_tlc("MC_Pipeline", cfg=cfgp, workers=1, tag="sim_" + ctx.prop, timeout=1800,
+                      extra=["-simulate", "file=%s,num=%d" % (os.path.join(wd, "b"), num), "-depth", "16", "-seed", str(ctx.seed)])
+    tlc.require_clean(res, "MC_Pipeline -simulate")
+    out = []
+    for path in sorted(glob.glob(os.path.join(wd, "b_*"))):
+        text = open(path).read()
+        last = re.split(r"^STATE_\d+ ==\s*$", text, flags=re.M)[-1]
+        last = last.split("=====")[0]
+        st = {}
+        for part in re.split(r"^/\\ ", last.strip(), flags=re.M):
+            part = part.strip()
+            if part and " = " in part:
+                name, _, val = part.partition(" = ")
+                st[name.strip()] = tlc.parse_value(val)
+        if st.get("order"):
+            out.append((st["table"], st["config"], st["order"]))
+    return out
+
+
 def parse_state(block):
     st = {}
     for part in re.split(r"^/\\ ", block.strip(), flags=re.M):
@@ -218,6 +244,22 @@ def check(ctx):
             add_run(tb, cfg, fe, "base", form, max_orders)
             if prop == "C18" and has_fault(tb, cfg) and fe != "qcconfig":
                 add_run(tb, healthy_only(tb, cfg), fe, "healthy_of", form, 0)
+    if prop == "C06":
+        # spec -> code: behaviours generated by TLC (-simulate): the collect order of each behaviour (complete, or a
+        # prefix when the behaviour was cut at the depth bound) is replayed through the real collect_results
+        sim = simulated_behaviours(ctx, big, ctx.pick(120, 1500))
+        for n, (tb, cfg, order) in enumerate(sim):
+            fe = ["pandas", "numpy_dict", "xarray", "pandas_idx"][n % 4]
+            if not pipe_exec.applicable(fe, tb, cfg):
+                fe = "pandas"
+            runs += 1
+            grp += 1
+            evs = pipe_exec.run_frontend(fe, tb, cfg, wd, form="iso", rng=ctx.rng, fixed_orders=[order])
+            for e in evs:
+                e["id"], e["rid"], e["rel"], e["grp"] = len(events) + 1, runs, {"kind": "base"}, grp
+                e.pop("msg", None)
+                events.append(e)
+        ctx.cov["tlc_behaviours_replayed"] = len(sim)
     ctx.cov["real_runs"] = runs
     ctx.cov["frontends"] = fe_all
     rejects = core.validate_parallel(ctx, events, "Trace_Pipeline", "pipe", session_key="grp", chunk=1500)
